@@ -89,38 +89,55 @@ Proj(kind, e) ==
     [] kind \in {"values", "values_mut", "into_values"}     -> JEntV(e)
 ProjSeq(kind, s) == [i \in 1..Len(s) |-> Proj(kind, s[i])]
 
-Episode(kind, order, n, total) ==
+\* How the rest of a cursor is consumed after n plain next() calls (Iterator's provided
+\* methods, which every iterator of the crate inherits or overrides):
+\*   fin = "none" | "nth" (with index j) | "last" | "fold"
+\* -> [skipped: consumed silently, taken: handed to the caller, left: still in the cursor]
+FinOf(fin, j, rest) ==
+  CASE fin = "none" -> [some |-> "nofin", skipped |-> <<>>, taken |-> <<>>, left |-> rest]
+    [] fin = "nth"  -> IF j < Len(rest)
+                       THEN [some |-> "item", skipped |-> SubSeq(rest, 1, j), taken |-> <<rest[j + 1]>>, left |-> SubSeq(rest, j + 2, Len(rest))]
+                       ELSE [some |-> "none", skipped |-> rest, taken |-> <<>>, left |-> <<>>]
+    [] fin = "last" -> IF rest # <<>>
+                       THEN [some |-> "item", skipped |-> SubSeq(rest, 1, Len(rest) - 1), taken |-> <<rest[Len(rest)]>>, left |-> <<>>]
+                       ELSE [some |-> "none", skipped |-> <<>>, taken |-> <<>>, left |-> <<>>]
+    [] fin = "fold" -> [some |-> "seq", skipped |-> <<>>, taken |-> rest, left |-> <<>>]
+
+Episode(kind, order, n, total, f) ==
   [yield |-> ProjSeq(kind, Prefix(order, n)),
    lens  |-> LensFrom(total, n),
-   rem   |-> ProjSeq(kind, Suffix(order, n))]
+   rem   |-> ProjSeq(kind, Suffix(order, n)),
+   fin   |-> [some |-> f.some, r |-> ProjSeq(kind, f.taken), after |-> Len(f.left)]]
 
-OpDrain(ts, n, end) ==                   \* drain.rs: len = 0 up front; Drain::drop drops the rest
+OpDrain(ts, n, end, fin, j) ==           \* drain.rs: len = 0 up front; Drain::drop drops the rest
   LET order == DrainOrder(ts)
-      rem == SeqRange(Suffix(order, n))
-      dead == IF end = "drop" THEN rem ELSE {}
+      f == FinOf(fin, j, Suffix(order, n))
+      rem == SeqRange(f.left)
+      dead == (IF end = "drop" THEN rem ELSE {}) \cup SeqRange(f.skipped)
       leak == IF end = "forget" THEN rem ELSE {}
-  IN ResL(Episode("drain", order, n, Len(ts)), <<>>,
+  IN ResL(Episode("drain", order, n, Len(ts), f), <<>>,
           {e.kt : e \in dead}, {e.vt : e \in dead}, {e.kt : e \in leak}, {e.vt : e \in leak})
 
-OpBorrowCursor(ts, kind, n, w) ==        \* slice iterators over pairs[..len]
+OpBorrowCursor(ts, kind, n, w, fin, j) ==   \* slice iterators over pairs[..len]
   LET order == BorrowOrder(ts)
       post == IF kind \in MutKinds /\ w # NoWrite
               THEN [i \in 1..Len(ts) |-> IF i <= n THEN [ts[i] EXCEPT !.v = w] ELSE ts[i]]
               ELSE ts
       \* what is left is rendered / counted after the writes of the first n items
-  IN Res(Episode(kind, order, n, Len(ts)), post, {}, {})
+  IN Res(Episode(kind, order, n, Len(ts), FinOf(fin, j, Suffix(order, n))), post, {}, {})
 
-OpConsumeCursor(ts, kind, n, end) ==     \* IntoIter: len -= 1; read(len)  -- pops from the back
+OpConsumeCursor(ts, kind, n, end, fin, j) ==     \* IntoIter: len -= 1; read(len)  -- pops from the back
   LET order == ConsumeOrder(ts)
-      taken == SeqRange(Prefix(order, n))
-      rem == SeqRange(Suffix(order, n))
-      dead == IF end = "drop" THEN rem ELSE {}
+      f == FinOf(fin, j, Suffix(order, n))
+      taken == SeqRange(Prefix(order, n)) \cup SeqRange(f.taken)
+      rem == SeqRange(f.left)
+      dead == (IF end = "drop" THEN rem ELSE {}) \cup SeqRange(f.skipped)
       leak == IF end = "forget" THEN rem ELSE {}
       dk == {e.kt : e \in dead} \cup (IF kind = "into_values" THEN {e.kt : e \in taken} ELSE {})
       dv == {e.vt : e \in dead} \cup (IF kind = "into_keys" THEN {e.vt : e \in taken} ELSE {})
       \* Debug of IntoIter / IntoKeys / IntoValues renders the remaining map front to back
       shown == ProjSeq(kind, Prefix(ts, Len(ts) - n))
-  IN ResL([Episode(kind, order, n, Len(ts)) EXCEPT !.rem = shown], <<>>, dk, dv, {e.kt : e \in leak}, {e.vt : e \in leak})
+  IN ResL([Episode(kind, order, n, Len(ts), f) EXCEPT !.rem = shown], <<>>, dk, dv, {e.kt : e \in leak}, {e.vt : e \in leak})
 
 \* --------------------------------------------------------------- entry --
 EntryMethodsV == {"or_insert", "or_insert_with", "or_insert_with_key", "and_modify",
@@ -244,11 +261,11 @@ SOpTake(ts, c) ==                        \* remove_entry(k).map(|p| p.0)
   IF i = 0 THEN Res(<<"none">>, ts, {}, {}) ELSE Res(REntK(ts[i]), SwapRemove(ts, i), {}, {})
 SOpRetain(ts, keep) == NoV(OpRetain(ts, keep, NoWrite))
 SOpClear(ts) == NoV(OpClear(ts))
-SOpDrain(ts, n, end) ==
-  LET r == OpDrain(ts, n, end) IN
-  NoV([r EXCEPT !.ret = Episode("keys", DrainOrder(ts), n, Len(ts))])
-SOpIter(ts, n) == OpBorrowCursor(ts, "keys", n, NoWrite)
-SOpIntoIter(ts, n, end) == NoV(OpConsumeCursor(ts, "into_keys", n, end))
+SOpDrain(ts, n, end, fin, j) ==
+  LET r == OpDrain(ts, n, end, fin, j) IN
+  NoV([r EXCEPT !.ret = Episode("keys", DrainOrder(ts), n, Len(ts), FinOf(fin, j, Suffix(DrainOrder(ts), n)))])
+SOpIter(ts, n, fin, j) == OpBorrowCursor(ts, "keys", n, NoWrite, fin, j)
+SOpIntoIter(ts, n, end, fin, j) == NoV(OpConsumeCursor(ts, "into_keys", n, end, fin, j))
 SOpExtend(ts, cap, items) == NoV(OpExtend(ts, cap, items))
 SOpFromIter(cap, items) == NoV(OpFromIter(cap, items))
 
@@ -309,9 +326,9 @@ Apply(ts, cap, op) ==
     [] op.name = "clear"            -> OpClear(ts)
     [] op.name = "drop"             -> OpDrop(ts)
     [] op.name = "s_drop"           -> NoV(OpDrop(ts))
-    [] op.name = "drain"            -> OpDrain(ts, op.n, op.end)
-    [] op.name = "cursor" /\ op.kind \in BorrowKinds  -> OpBorrowCursor(ts, op.kind, op.n, op.w)
-    [] op.name = "cursor" /\ op.kind \in ConsumeKinds -> OpConsumeCursor(ts, op.kind, op.n, op.end)
+    [] op.name = "drain"            -> OpDrain(ts, op.n, op.end, op.fin, op.j)
+    [] op.name = "cursor" /\ op.kind \in BorrowKinds  -> OpBorrowCursor(ts, op.kind, op.n, op.w, op.fin, op.j)
+    [] op.name = "cursor" /\ op.kind \in ConsumeKinds -> OpConsumeCursor(ts, op.kind, op.n, op.end, op.fin, op.j)
     [] op.name = "entry"            -> OpEntry(ts, cap, op.m, op.k, op.v, op.w)
     [] op.name = "disjoint"         -> OpDisjoint(ts, op.ks, op.w, op.unchecked)
     [] op.name = "from_iter"        -> OpFromIter(cap, op.items)
@@ -325,9 +342,9 @@ Apply(ts, cap, op) ==
     [] op.name = "s_take"           -> SOpTake(ts, op.c)
     [] op.name = "s_retain"         -> SOpRetain(ts, op.keep)
     [] op.name = "s_clear"          -> SOpClear(ts)
-    [] op.name = "s_drain"          -> SOpDrain(ts, op.n, op.end)
-    [] op.name = "s_iter"           -> SOpIter(ts, op.n)
-    [] op.name = "s_into_iter"      -> SOpIntoIter(ts, op.n, op.end)
+    [] op.name = "s_drain"          -> SOpDrain(ts, op.n, op.end, op.fin, op.j)
+    [] op.name = "s_iter"           -> SOpIter(ts, op.n, op.fin, op.j)
+    [] op.name = "s_into_iter"      -> SOpIntoIter(ts, op.n, op.end, op.fin, op.j)
     [] op.name = "s_extend"         -> SOpExtend(ts, cap, op.items)
     [] op.name = "s_from_iter"      -> SOpFromIter(cap, op.items)
     [] op.name = "s_from_array"     -> SOpFromIter(cap, op.items)
